@@ -141,8 +141,34 @@ def r2_flatten(ctx):
                            and sv is not None and (sv == Rat.atom("len(%s)" % fname) or sv == true_count))
                 ctx.check("R14.3", "flatten:shape-is-length", oks, "flatten-shape:" + short(got, 60), c.loc(fn, arm["body"]), "shape = Single(len of the flattened vector)",
                           "flatten records the shape `%s`; it must be the number of elements actually stored" % got)
-            else:
-                ctx.bad("R14.2", "flatten:row-major", "flatten-loops:%d" % len(fors), c.loc(fn, arm["body"]), "")
+            if not ok:
+                # the same fact on the E6 effect summary (any spelling of the loop nest): the stored vector is filled by an in-order,
+                # unconditional walk channel -> row -> element of the matched 3-D data
+                from .. import e6
+                E_ = e6.Exec(c, fn)
+                SD = ("field", ("p", "self"), "data")
+                okE = False
+                for p_ in E_.run_fn():
+                    if p_.exit is not None and p_.exit[0] != "return":
+                        continue
+                    if e6.variant_of(p_).get(SD) != "tensor::Data::Triple":
+                        continue
+                    val_ = p_.val if p_.exit is None else p_.exit[1]
+                    dv = dict(val_[2]).get("data") if isinstance(val_, tuple) and val_ and val_[0] == "struct" else None
+                    inner = dv[2][0] if isinstance(dv, tuple) and dv and dv[0] in ("var", "call") and len(dv[2]) == 1 else None
+                    rm = e6.row_major_fill(E_, inner) if inner is not None else None
+                    okE = rm is not None and rm[0] == ("payload", SD, "tensor::Data::Triple", 0) and rm[1] == 3
+                    shp = dict(val_[2]).get("shape") if isinstance(val_, tuple) and val_ and val_[0] == "struct" else None
+                    sa = shp[2][0] if isinstance(shp, tuple) and shp and shp[0] in ("var", "call") and len(shp[2]) == 1 else None
+                    okS = sa is not None and e6.is_call(sa, "len", 1) is not None and e6.is_call(sa, "len", 1)[0] == inner
+                    if len(fors) != 2 or not ok:
+                        ctx.check("R14.3", "flatten:shape-is-length", bool(okE and okS), "flatten-shape:" + short(e6.show(shp, 2) if shp else "?", 60), c.loc(fn, arm["body"]),
+                                  "shape = Single(len of the flattened vector)")
+                ctx.obligations[:] = [o for o in ctx.obligations if not (o["rule"] == "R14.2" and o["instance"] == "flatten:row-major" and o["status"] != "ok")] if okE else ctx.obligations
+                if okE:
+                    ctx.ok("R14.2", "flatten:row-major", "in-order walk channel -> row -> element (effect summary)", c.loc(fn, arm["body"]))
+                elif len(fors) != 2:
+                    ctx.bad("R14.2", "flatten:row-major", "flatten-loops:%d" % len(fors), c.loc(fn, arm["body"]), "")
     from ..extract import extract, Unrecognised
     from .. import arms
     fn = ctx.fn(T + "get_flat")
